@@ -221,8 +221,13 @@ class ZipCreator:
     @staticmethod
     def _write_zip(source_dir: str, zip_path: str, skip_ext: Optional[str] = None) -> None:
         """Write directory contents to zip file."""
+        def fail(err):
+            # os.walk skips directories it cannot read unless told otherwise; an
+            # archive that silently lacks members must not be reported as success
+            raise err
+
         with zipfile.ZipFile(zip_path, "w", compression=zipfile.ZIP_DEFLATED) as zf:
-            for dirpath, _, files in os.walk(source_dir):
+            for dirpath, _, files in os.walk(source_dir, onerror=fail):
                 for filename in files:
                     filepath = os.path.join(dirpath, filename)
                     if skip_ext and os.path.splitext(filepath)[1] == skip_ext:
